@@ -75,6 +75,7 @@ def run(tier, seed):
     impl = run_engine(runner, lines)
     model = run_engine(driver_path(), lines) if lean["build_ok"] else {}
     standard_compare(res, cases, impl, model)
+    concurrent_pass(res, RUNNER, lines, cases, impl)
     # the object-API forms once more on the nightly build: there the precomputed key is additionally held in locked and
     # read-only locked memory and the heap containers exist (every form must still give the same bytes)
     ncases = [c for c in cases if c.line.split(" ")[0].startswith(("boxobj_", "sbobj_"))]
